@@ -42,6 +42,11 @@ theorem SeqOp.apply_map {α β} (f : α → β) (g : Regs α) (op : SeqOp α) :
     · rw [← Regs.map, Regs.map_put]; simp [Regs.map, List.map_set]
     · rfl
 
+  | setAtRev r i x =>
+    simp only [SeqOp.apply, SeqOp.map, Regs.map, List.length_map]
+    split
+    · rw [← Regs.map, Regs.map_put]; simp [Regs.map, List.map_set]
+    · rfl
   | obs r => rfl
   | moveS r q =>
     simp only [SeqOp.apply, SeqOp.map]
@@ -49,6 +54,7 @@ theorem SeqOp.apply_map {α β} (f : α → β) (g : Regs α) (op : SeqOp α) :
     · rfl
     · simp [Regs.map_put, Regs.map]
   | obsNone r => rfl
+  | obs2 r q => rfl
 
 theorem SeqOp.run_map {α β} (f : α → β) (ops : List (SeqOp α)) : ∀ g : Regs α,
     (SeqOp.run g ops).map f = SeqOp.run (g.map f) (ops.map (SeqOp.map f)) := by
